@@ -16,8 +16,8 @@ DESIGN_REF = "DESIGN.md section 3, C05"
 TECHNIQUE = "Hypothesis generation with metamorphic relations: cmd(perm x) == perm cmd(x) and cmd(reshape x) == reshape cmd(x); shape(out) == shape(in)"
 LEVEL_TEXT = (
     "For every one of the 30 data commands a base case is drawn on a vector of N <= 24 cells; then all inputs are "
-    "rearranged by one random permutation and reshaped into every factorisation of N of rank 2 and 3 (length-1 axes "
-    "included). The result must have exactly the input shape and equal the correspondingly rearranged base result "
+    "rearranged by one random permutation, reshaped into every factorisation of N of rank 2 and 3 (length-1 axes "
+    "included) and presented as transposed (non-contiguous) views of those grids. The result must have exactly the input shape and equal the correspondingly rearranged base result "
     "(masks identical, values within 1e-9 relative). No reference semantics are involved. Sampled, not exhaustive."
 )
 LEVEL_NOTE = "Whole-array statistics are order-independent on the dyadic lattice inputs used; a 1e-9 relative tolerance absorbs summation-order rounding."
@@ -100,6 +100,20 @@ def check_unit(case, rec):
         if min(shape) > 1:
             nontrivial = True
             rec.label("reshape_no_unit_axis")
+        # transposition is a common permutation of the cells; the transposed inputs are non-contiguous views
+        if sum(1 for d in shape if d > 1) >= 2:
+            tarr = [a.T for a in rarr]
+            st3, r3 = A.run_command(cmd, tarr, case["params"])
+            rec.label("transposed_view")
+            if kind_of(st3, r3) != k0:
+                fails.append(Failure("%s|transpose:%s:outcome" % (sig, cls), "shape %r transposed: %s vs %s" % (shape, kind_of(st3, r3), k0)))
+                break
+            if not isinstance(r3, numpy.ndarray) or list(r3.shape) != list(shape)[::-1]:
+                fails.append(Failure("%s|transpose:%s:shape" % (sig, cls), "input shape %r, result shape %r" % (shape[::-1], getattr(r3, "shape", None))))
+                break
+            if not U.result_equal(r3, r2.T, 1e-9):
+                fails.append(Failure("%s|transpose:%s:value" % (sig, cls), "cmd(x.T) != cmd(x).T for shape %r" % (shape,)))
+                break
     if st0 == "ok" and nontrivial and (cmd not in R.NARY or len(base_arrays) >= 2):
         rec.nontrivial_case(case)
         rec.label("nontrivial:" + ("nary" if cmd in R.NARY else "other"), sample=case if n_cells <= 6 else None)
